@@ -15,6 +15,9 @@ import (
 type Effects struct {
 	P        *Prog
 	IsSink   func(*ssa.Function) bool
+	// IsSinkInstr optionally selects non-call instructions (field stores,
+	// map updates) that are effects themselves.
+	IsSinkInstr func(ssa.Instruction) bool
 	InScope  func(*ssa.Function) bool
 	Guards   []*Guard
 	NonEmpty func(*ssa.Function) bool
@@ -54,6 +57,15 @@ func (e *Effects) Writes(fn *ssa.Function) bool {
 	}
 	e.writes[fn] = 3
 	res := 1
+	if e.IsSinkInstr != nil {
+		for _, b := range fn.Blocks {
+			for _, in := range b.Instrs {
+				if e.IsSinkInstr(in) {
+					res = 2
+				}
+			}
+		}
+	}
 	for _, c := range Calls(fn) {
 		if callee := c.Common().StaticCallee(); callee != nil && e.Writes(callee) {
 			res = 2
@@ -71,12 +83,21 @@ func (e *Effects) Writes(fn *ssa.Function) bool {
 	return res == 2
 }
 
-// WriteActions lists the calls in fn that can reach a sink.
-func (e *Effects) WriteActions(fn *ssa.Function) []ssa.CallInstruction {
-	var out []ssa.CallInstruction
-	for _, c := range Calls(fn) {
-		if callee := c.Common().StaticCallee(); callee != nil && e.Writes(callee) {
-			out = append(out, c)
+// WriteActions lists the instructions in fn that are effects or calls that
+// can reach one.
+func (e *Effects) WriteActions(fn *ssa.Function) []ssa.Instruction {
+	var out []ssa.Instruction
+	for _, b := range fn.Blocks {
+		for _, in := range b.Instrs {
+			if c, ok := in.(ssa.CallInstruction); ok {
+				if callee := c.Common().StaticCallee(); callee != nil && e.Writes(callee) {
+					out = append(out, in)
+				}
+				continue
+			}
+			if e.IsSinkInstr != nil && e.IsSinkInstr(in) {
+				out = append(out, in)
+			}
 		}
 	}
 	return out
@@ -117,7 +138,10 @@ func (e *Effects) check(fn *ssa.Function, depth int) *EffVerdict {
 		if one.Holds && one.GuardSites > 0 {
 			continue
 		}
-		callee := a.Common().StaticCallee()
+		var callee *ssa.Function
+		if ci, isCall := a.(ssa.CallInstruction); isCall {
+			callee = ci.Common().StaticCallee()
+		}
 		if callee != nil && !e.IsSink(callee) && e.InScope(callee) && depth < max {
 			sub := e.check(callee, depth+1)
 			if sub.OK && sub.Actions > 0 {
@@ -135,7 +159,11 @@ func (e *Effects) check(fn *ssa.Function, depth int) *EffVerdict {
 	return v
 }
 
-func callName(c ssa.CallInstruction) string {
+func callName(in ssa.Instruction) string {
+	c, ok := in.(ssa.CallInstruction)
+	if !ok {
+		return in.String()
+	}
 	if f := c.Common().StaticCallee(); f != nil {
 		return FuncName(f)
 	}
